@@ -245,7 +245,7 @@ def run_shards(module: Any, shard_list: list[Any], workers: int) -> list[Any]:
             conn.close()
             proc.join()
             res = results[index]
-            if failfast and not stop and (isinstance(res, str) or any(sig not in known for sig in res.violation_counts)):
+            if failfast and not stop and not isinstance(res, str) and any(sig not in known for sig in res.violation_counts):
                 stop = True
                 for other_conn, (other_index, other_proc) in list(running.items()):
                     other_proc.terminate()
@@ -313,9 +313,16 @@ def main(module: Any, argv: list[str] | None = None) -> int:
 
     internal = [r for r in results if isinstance(r, str)]
     if internal:
+        # A crash of the harness is reported as such (exit 2) - unless other shards found violations: then those are
+        # reported first (exit 1) and the crash is mentioned.
         print(f"INTERNAL-ERROR property={prop}: {len(internal)} shard(s) crashed in the harness")
         print(internal[0])
-        return 2
+        if all(isinstance(r, str) or not r.violation_counts for r in results):
+            return 2
+        results = [ShardResult() if isinstance(r, str) else r for r in results]
+        for r in results:
+            if not r.evaluations and not r.caps:
+                r.caps.append("shard crashed in the harness")
 
     total = ShardResult()
     for shard_index, res in enumerate(results):
